@@ -259,6 +259,21 @@ def run(tier, seed, replay=None):
     for j in range(0, len(pcases), 200):
         body = ';\n'.join(pterm(pc) for pc in pcases[j:j + 200])
         jobs.append((f'c02_p_{j // 200}', ('p', j), hdr_p + f'Definition cs : list pass_case := [\n{body}\n].\nEval vm_compute in (bad_indices (map pass_agrees cs)).\n'))
+    # (1c) the fast matcher against the normal matcher on the real code: chunks of gapped minutes with several resting orders and reactions must be
+    # filled in the same minutes by both (the fast matcher walks the chunk along the normal simulator's minute candles)
+    from . import c12 as K
+    chunk_diffs, n_chunks = [], 0
+    for _ in range(60 if tier == 'quick' else 1500):
+        ks_, orders_, script_ = K.gen_chunk(rng)
+        try:
+            _, ff_, _, fl_ = K.real_chunk(ks_, orders_, script_)
+            sf_, sl_ = K.real_step_chunk(ks_, orders_, script_)
+        except Exception:
+            continue
+        n_chunks += 1
+        if ff_ != sf_ or sorted(fl_) != sorted(sl_):
+            chunk_diffs.append({'chunk_candles': ks_, 'resting_orders': orders_, 'reactions': {str(k_): v_ for k_, v_ in script_.items()},
+                                'fast_fills_id_minute': ff_, 'normal_fills_id_minute': sf_, 'fast_left': fl_, 'normal_left': sl_})
     # (2)
     sessions = 24 if tier == 'quick' else 300
     metas, py_bad, sess_err = [], [], []
@@ -325,6 +340,10 @@ def run(tier, seed, replay=None):
         res.violation(site, CODES.get(code, str(code)), {'simulator': 'fast' if m['fast'] else 'normal', 'exchange_type': m['exchange_type'], 'timeframe': m['timeframe'],
                                                          'script': m['script'], 'event_index': idx, 'events_before': [s for _, s in m['items'][lo:idx + 1]],
                                                          'candles': m['candles'], 'fee': m['fee'], 'leverage': m['leverage']})
+    res.extra['chunks_on_both_real_matchers'] = n_chunks
+    if chunk_diffs:
+        res.violation('fast_matcher_fills_differ_from_the_normal_matcher_on_a_chunk', 'a chunk is filled differently by the fast matcher: an order is filled in another minute '
+                      'than the first one whose range contains its price, or left unfilled', chunk_diffs[0])
     for b in py_bad:
         site = f"{b['clause']}:{'fast' if b['fast'] else 'normal'}"
         if site in seen: continue
